@@ -209,7 +209,10 @@ package server
 //@   # C09: what goWeb replays to the target is exactly what was consumed from the peer, and the peer
 //@   # connection has no read deadline armed when it is handed to the relay
 //@   atcall Dial requires consumedPrefix: len(data) == inpos(conn) - old(inpos(conn)) && (forall k int :: 0 <= k && k < len(data) ==> data[k] == inbyte(conn, old(inpos(conn)) + k))
-//@   atcall Write requires replayIntact: len(data) == inpos(conn) - old(inpos(conn)) && (forall k int :: 0 <= k && k < len(data) ==> data[k] == inbyte(conn, old(inpos(conn)) + k))
+//@   # what is WRITTEN to the redirect target is exactly the consumed prefix: those bytes, that many, nothing after them
+//@   atcall Write requires replayIntact: len(arg0.([]byte)) == inpos(conn) - old(inpos(conn)) && (forall k int :: 0 <= k && k < len(arg0.([]byte)) ==> arg0.([]byte)[k] == inbyte(conn, old(inpos(conn)) + k))
+//@   # and the two relays run between the peer's connection and the redirect target's, one in each direction
+//@   atcall Copy requires relayBetweenPeerAndTarget: (arg0 == conn && arg1 == lastretOf[net.Conn]("(Dialer).Dial")) || (arg1 == conn && arg0 == lastretOf[net.Conn]("(Dialer).Dial"))
 //@   atcall Dial requires relayUnimpeded: !deadlineArmed(conn) && closedconn(conn) == old(closedconn(conn))
 //@   flag perexit
 //@   flag noframe
